@@ -12,6 +12,9 @@ def main(tier):
 
     IS.run_all(rep, tier, 'C04:')
 
+    from contracts import degree_c
+    degree_c.run(rep, ['VacancyMediated.Lij', 'Interstitial.siteprob', 'Interstitial.ratelist', 'Interstitial.symmratelist', 'Interstitial.diffusivity'], replay=degree_c.replay_lij)
+
     from vf import extract
     for rel, q in [('onsager/OnsagerCalc.py', 'Interstitial.siteprob'), ('onsager/OnsagerCalc.py', 'Interstitial.ratelist'), ('onsager/OnsagerCalc.py', 'Interstitial.symmratelist'), ('onsager/OnsagerCalc.py', 'VacancyMediated.preene2betafree'), ('onsager/OnsagerCalc.py', 'VacancyMediated._symmetricandescaperates'), ('onsager/OnsagerCalc.py', 'VacancyMediated.Lij'), ('onsager/GFcalc.py', 'GFCrystalcalc.SetRates')]:
         try:
